@@ -41,7 +41,7 @@ def gen(r, tier, i):
     procs = []
     for pid in range(n):
         procs.append({'pid': pid, 'ts': r.choice(TS),
-                      'emit': {v: r.random() < 0.6 for v in ('a', 'b', 'q', 'q2', 'ser', 'falsy')}})
+                      'emit': {v: r.random() < 0.6 for v in ('a', 'b', 'q', 'q2', 'qser', 'ser', 'falsy')}})
     overrides = []
     for pid in range(n):
         k = r.random()
@@ -107,6 +107,8 @@ def build(spec, emit_step):
                       # declared in fg, default given in pg, never updated: must be emitted in fg
                       'q2': {'_default': 0.002 * units.pg, '_emit': em['q2'], '_units': units.fg},
                       'ser': {'_default': 0, '_emit': em['ser'], '_serializer': 'vmon_tag'},
+                      # a custom serializer on a variable whose default is a quantity
+                      'qser': {'_default': 2.0 * units.fg, '_emit': em['qser'], '_serializer': 'vmon_tag'},
                       'falsy': {'_default': 3, '_emit': em['falsy'], '_updater': 'set'}},
                 'shared': {'n': {'_default': 0, '_emit': True}, 'hidden': {'_default': 0, '_emit': False}},
             }
@@ -238,6 +240,8 @@ def expected_row(spec, snap, fl):
             v = '!units[%s]' % str(v.to(units.fg))
         elif path[-1] == 'ser':
             v = 'tag:%s' % (v,)
+        elif path[-1] == 'qser':
+            v = 'tag:%s' % (v.to(units.fg),)
         put(path, v)
     return out
 
